@@ -21,7 +21,7 @@ RULE = ('hierarchies of 1-3 nested branches with 1-5 variables each; every varia
         'variables updated and (a _multi_update, an override, a quantity or an array present); distinct = '
         'distinct case spec')
 PLAN = {'quick': {'n': 30000, 'min_cases': 1500}, 'thorough': {'n': 300000, 'min_cases': 30000}}
-REQUIRED_ORACLES = ['second_batch_value', 'store_value', 'frame', 'update_not_mutated', 'units_normalised',
+REQUIRED_ORACLES = ['structural_update_not_mutated', 'second_batch_value', 'store_value', 'frame', 'update_not_mutated', 'units_normalised',
                     'contract.accumulate', 'contract.set', 'contract.merge', 'contract.nonnegative_accumulate',
                     'contract.null', 'contract.dict_value', 'engine_value']
 ANCHORS = ['vivarium.core.registry:update_merge', 'vivarium.core.registry:update_set',
@@ -248,6 +248,11 @@ def gen_update(r, var, cur_keys):
 
 
 def gen(r, tier, i):
+    if r.random() < 0.04:
+        # structural updates (_add, _delete, _move, _generate, _divide): C09's workload, judged here only
+        # on "the update object handed in is not modified"
+        from vmon.checks import c09
+        return {'family': 'structural', 'c09': c09.gen(r, tier, i)}
     nb = r.randint(1, 3)
     branches = []
     for b in range(nb):
@@ -301,6 +306,16 @@ def real(x):
 
 
 def run(spec):
+    if spec.get('family') == 'structural':
+        from vmon.checks import c09
+        res = c09.run(spec['c09'])
+        ui = res.get('update_intact', {'evals': 0, 'viol': []})
+        V = Viol()
+        V.count('structural_update_not_mutated', ui['evals'] - (1 if ui['viol'] else 0))
+        if ui['viol']:
+            V.check('structural_update_not_mutated', False, ui['viol'][0])
+        return {'viol': list(V), 'evals': V.evals, 'nontrivial': ui['evals'] >= 2, 'classes': ['structural'],
+                'summary': {'structural_updates': ui['evals']}}
     from vivarium.core.store import Store
     from vivarium.core.engine import Engine
     from vivarium.core.process import Process
